@@ -231,6 +231,29 @@ def lenient_then_strict(res, judge):
             res.violation("C18:strict-after-lenient-load:accepted", f"a file holding {T}.{sc.name} = {v} (outside {sc.min}..{sc.max}) was loaded; afterwards {T}().{sc.name} = {v} is accepted "
                                                                     f"without ControllerValueError (flag is {errors.RAISE_CONTROLLER_VALUE_ERRORS!r})", case)
             break
+        # the same load in a process that turns warnings into errors (python -W error, pytest filterwarnings = error):
+        # however the load ends, the flag is back and the assignment is rejected again
+        errors.RAISE_CONTROLLER_VALUE_ERRORS = True
+        case = dict(case, fault="lenient-load-under-warnings-as-errors")
+        judge.case = case
+        with warnings.catch_warnings():
+            warnings.simplefilter("error")
+            try:
+                judge.wrapped(BytesIO(iffparse.build(chunks)))
+            except Exception:
+                res.count("loads_failing_under_warnings_as_errors")
+        res.count("loads")
+        res.count("loads_under_warnings_as_errors")
+        try:
+            setattr(cls(), sc.name, v)
+        except ControllerValueError:
+            pass
+        except Exception as e:
+            res.violation(f"C18:strict-after-lenient-load:wrong-error:{type(e).__name__}", f"{T}().{sc.name} = {v} raised {e!r}", case)
+        else:
+            res.violation("C18:strict-after-lenient-load:accepted", f"after a lenient load of {T}.{sc.name} = {v} with warnings turned into errors, {T}().{sc.name} = {v} is accepted "
+                                                                    f"(flag is {errors.RAISE_CONTROLLER_VALUE_ERRORS!r})", case)
+        errors.RAISE_CONTROLLER_VALUE_ERRORS = True
 
 
 def undefined_enum_then_strict(res, judge):
@@ -286,6 +309,21 @@ def big_file_failures(res, judge, tdir):
     raw = p.read()
     pos = raw.rfind(b"Amplifier\0")
     variants = [("good", raw), ("late-unknown-type", raw[:pos] + b"Amplifiex\0" + raw[pos + 10:]), ("truncated", raw[:len(raw) - 40])]
+    # files in OTHER formats handed over by name (a compressed copy, an archive, text, nothing at all): accepted or rejected,
+    # the descriptor is released either way
+    import bz2
+    import gzip
+    import lzma
+    import zipfile
+    small = api.Synth(api.m.Amplifier()).read()
+    zbuf = BytesIO()
+    with zipfile.ZipFile(zbuf, "w") as z:
+        z.writestr("a.sunsynth", small)
+    for kind, data in (("gzip-synth", gzip.compress(small)), ("gzip-project", gzip.compress(api.Project().read())), ("gzip-garbage", gzip.compress(b"not a container")),
+                       ("gzip-truncated", gzip.compress(small)[:-9]), ("bz2", bz2.compress(small)), ("xz", lzma.compress(small)), ("zip", zbuf.getvalue()),
+                       ("text", b"SunVox project\n"), ("empty", b""), ("riff", b"RIFF\x24\0\0\0WAVEfmt "), ("form", b"FORM\0\0\0\x04SVOX"),
+                       ("small-good", small)):
+        variants.append((kind, data))
     for kind, data in variants:
         path = os.path.join(tdir, f"big-{kind}.sunvox")
         with open(path, "wb") as f:
